@@ -303,6 +303,36 @@ def _flat(out, tf):
   return out
 
 
+def _cfg_norm(c):
+  import json
+  return json.loads(json.dumps(c, sort_keys=True, default=lambda o: o.get_config() if hasattr(o, 'get_config') else str(o)))
+
+
+def _cfg_equal(a, b):
+  return _cfg_norm(a) == _cfg_norm(b)
+
+
+def _cfg_diff(a, b, path=''):
+  a, b = _cfg_norm(a) if not path else a, _cfg_norm(b) if not path else b
+  if isinstance(a, dict) and isinstance(b, dict):
+    for k in sorted(set(a) | set(b)):
+      if k not in a or k not in b:
+        return '%s/%s present on one side only' % (path, k)
+      d = _cfg_diff(a[k], b[k], path + '/' + str(k))
+      if d:
+        return d
+    return None
+  if isinstance(a, list) and isinstance(b, list):
+    if len(a) != len(b):
+      return '%s: %d vs %d entries' % (path, len(a), len(b))
+    for i, (x, y) in enumerate(zip(a, b)):
+      d = _cfg_diff(x, y, '%s[%d]' % (path, i))
+      if d:
+        return d
+    return None
+  return None if a == b else '%s: %r vs %r' % (path, a, b)
+
+
 def _premades():
   import tensorflow_lattice as tfl
   C = tfl.configs
@@ -313,6 +343,12 @@ def _premades():
     return [C.FeatureConfig(name='a', lattice_size=2, monotonicity='increasing', pwl_calibration_input_keypoints=kp),
             C.FeatureConfig(name='b', lattice_size=2, pwl_calibration_input_keypoints=kp),
             C.FeatureConfig(name='c', lattice_size=2, monotonicity='decreasing', pwl_calibration_input_keypoints=kp)]
+  def reg_fcs():
+    f = fcs()
+    f[0].regularizer_configs = [C.RegularizerConfig(name='calib_wrinkle', l1=0.5, l2=0.0)]
+    f[0].pwl_calibration_input_keypoints = [0.0, 1.0, 2.0, 4.0]
+    f[1].regularizer_configs = [C.RegularizerConfig(name='calib_hessian', l1=0.0, l2=1.0), C.RegularizerConfig(name='calib_laplacian', l1=0.25, l2=0.0)]
+    return f
   return [
       ('CalibratedLinear', lambda: P.CalibratedLinear(C.CalibratedLinearConfig(feature_configs=fcs()[:2], use_bias=True, output_min=0.0, output_max=1.0,
                                                                              output_initialization=[0.0, 1.0]))),
@@ -322,6 +358,16 @@ def _premades():
           feature_configs=fcs(), lattices=[['a', 'b'], ['c', 'a']], output_initialization=[0.0, 1.0]))),
       ('CalibratedLatticeEnsemble-rtl', lambda: P.CalibratedLatticeEnsemble(C.CalibratedLatticeEnsembleConfig(
           feature_configs=fcs(), lattices='rtl_layer', num_lattices=2, lattice_rank=2, random_seed=9, output_initialization=[0.0, 1.0]))),
+      # feature-level and model-level regularizers together (calibrator and lattice kinds)
+      ('CalibratedLattice-regularized', lambda: P.CalibratedLattice(C.CalibratedLatticeConfig(
+          feature_configs=reg_fcs()[:2], output_min=0.0, output_max=1.0, output_initialization=[0.0, 1.0],
+          regularizer_configs=[C.RegularizerConfig(name='calib_hessian', l1=0.0, l2=0.5), C.RegularizerConfig(name='torsion', l1=0.25, l2=0.0)]))),
+      ('CalibratedLinear-regularized', lambda: P.CalibratedLinear(C.CalibratedLinearConfig(
+          feature_configs=reg_fcs()[:2], use_bias=False, output_initialization=[0.0, 1.0],
+          regularizer_configs=[C.RegularizerConfig(name='calib_laplacian', l1=0.5, l2=0.0)]))),
+      ('CalibratedLatticeEnsemble-regularized', lambda: P.CalibratedLatticeEnsemble(C.CalibratedLatticeEnsembleConfig(
+          feature_configs=reg_fcs(), lattices=[['a', 'b'], ['c', 'a']], output_initialization=[0.0, 1.0],
+          regularizer_configs=[C.RegularizerConfig(name='calib_wrinkle', l1=0.0, l2=0.25), C.RegularizerConfig(name='laplacian', l1=0.5, l2=0.0)]))),
   ]
 
 
@@ -340,6 +386,17 @@ def case_functional_premade(**p):
       case.record('model-rebuilds-from-config[%s]' % label, 'sat', kind='structural', witness={}, replay=dict(fn='premade', label=label),
                   sig=dict(query='rebuild', label=label), note='%s: %s' % (type(e).__name__, str(e)[:160]))
       continue
+    # the built model's config survives the round trip unchanged, again after a second one
+    ca, cb = a.get_config(), b.get_config()
+    try:
+      with keras.utils.custom_object_scope(co):
+        cc = type(a).from_config(cb, custom_objects=co).get_config()
+    except Exception as e:  # pylint: disable=broad-except
+      cc = dict(error='%s: %s' % (type(e).__name__, str(e)[:120]))
+    same_cfg = _cfg_equal(ca, cb) and _cfg_equal(cb, cc)
+    case.record('rebuilt-model-has-equal-config[%s]' % label, 'unsat' if same_cfg else 'sat', kind='structural', witness={},
+                replay=dict(fn='premade-config', label=label), sig=dict(query='model-config', label=label),
+                note='' if same_cfg else 'first difference: %s' % (_cfg_diff(ca, cb) or _cfg_diff(cb, cc)))
     nin = len(a.inputs)
     fa = lambda *xs: a(list(xs))
     fb = lambda *xs: b(list(xs))
@@ -370,6 +427,16 @@ def case_functional_premade(**p):
     pairs = list(zip(np.asarray(oa, dtype=object).reshape(-1), np.asarray(ob, dtype=object).reshape(-1)))
     case.identity('rebuilt-model-computes-identical-outputs[%s]' % label, pairs, witness=dict(wit, **{'x%d' % i: x for i, x in enumerate(xs)}),
                   timeout=120, sig=dict(query='functional', label=label), replay=dict(fn='premade', label=label))
+    # the regularization loss is part of what is trained: same function of the variables
+    if a.losses or b.losses:
+      la = Traced(lambda: tf.add_n([tf.reshape(l, []) for l in a.losses]) if a.losses else tf.constant(0.0), [], name=label + '.losses')
+      lb = Traced(lambda: tf.add_n([tf.reshape(l, []) for l in b.losses]) if b.losses else tf.constant(0.0), [], name=label + "'.losses")
+      (xa,) = la.sym_run(var_values=vva)
+      (xb,) = lb.sym_run(var_values=vvb)
+      case.identity('rebuilt-model-has-identical-regularization-loss[%s]' % label,
+                    [(np.asarray(xa, dtype=object).reshape(-1)[0], np.asarray(xb, dtype=object).reshape(-1)[0])], witness=wit, timeout=120,
+                    sig=dict(query='losses', label=label),
+                    inline_replay=lambda m: core.compare_tf(m, [(la, [], vva, lambda o: o[0]), (lb, [], vvb, lambda o: o[0])]))
     # weights set/get round trip is the identity on values (Keras contract, executed)
     w0 = [np.arange(int(np.prod(w.shape)), dtype=np.float32).reshape(w.shape) / 8.0 for w in a.get_weights()]
     a.set_weights(w0)
@@ -451,6 +518,12 @@ def replay(r):
           b = type(a).from_config(a.get_config(), custom_objects=co)
       except Exception as e:  # pylint: disable=broad-except
         return dict(reproduced=True, detail='%s: %s' % (type(e).__name__, str(e)[:200]))
+      if rp['fn'] == 'premade-config':
+        ca, cb = a.get_config(), b.get_config()
+        with keras.utils.custom_object_scope(co):
+          cc = type(a).from_config(cb, custom_objects=co).get_config()
+        d = _cfg_diff(ca, cb) or _cfg_diff(cb, cc)
+        return dict(reproduced=d is not None, detail=dict(first_difference=d))
       w = r.get('witness') or {}
       nin = len(a.inputs)
       rng = np.random.default_rng(0)
